@@ -54,6 +54,7 @@ POSTS = "tangelo/toolboxes/post_processing/post_selection.py"
 UCCGDF = "tangelo/toolboxes/ansatz_generator/uccgd.py"
 RDMSF = "tangelo/toolboxes/molecular_computation/rdms.py"
 TGSYMPYB = "tangelo/linq/target/target_sympy.py"
+BKF = "tangelo/toolboxes/qubit_mappings/bravyi_kitaev.py"
 ISP = "tangelo/toolboxes/molecular_computation/integral_solver_pyscf.py"
 
 FIRE = [
@@ -212,6 +213,9 @@ FIRE = [
     ("hcb-pair-energy-without-repulsion", "C03", [(HCB, "            coeff = 2*e_sei[i, i] + e_tei[i, i, i, i]", "            coeff = 2*e_sei[i, i]")], "K9.hcb-table"),
     ("fci-cas-bare-count", "C04", [(FCI, "                                                   (self.n_alpha, self.n_beta),\n                                                   ecore=self.ecore)", "                                                   self.nelec,\n                                                   ecore=self.ecore)")], "K6.electron-sector"),
     ("fci-alpha-count-floor", "C04", [(FCI, "        self.n_alpha = self.nelec//2 + self.spin//2 + (self.nelec % 2)", "        self.n_alpha = self.nelec//2 + self.spin//2")], "K6.electron-sector"),
+    ("bk-wrapper-drops-register-size", "C03", [(BKF, "    qubit_operator = openfermion_bravyi_kitaev(fermion_operator, n_qubits=n_qubits)", "    qubit_operator = openfermion_bravyi_kitaev(fermion_operator)")], "K7.register-size"),
+    ("get-coeffs-remembered-arrays", "C03", [(OPS, "        return constant, one_body, two_body\n", "        cache = self.__dict__.setdefault(\"_coeffs\", dict())\n        if (coeff_threshold, spatial) in cache:\n            return cache[(coeff_threshold, spatial)]\n        cache[(coeff_threshold, spatial)] = (constant, one_body, two_body)\n        return cache[(coeff_threshold, spatial)]\n")], "K1.cache-key"),
+    ("hcb-reordered-before-extraction", "C03", [(MT, "    if up_then_down and mapping.upper() != \"HCB\":", "    if up_then_down:")], "K8.spin-ordering"),
     ("mapping-name-case-sensitive", "C03", [(MT, "    if mapping.upper() not in available_mappings:", "    if mapping not in available_mappings:")], "K3.mapping-dispatch"),
     ("vector-mapping-name-case-sensitive", "C05", [(SV, "    if mapping.upper() not in available_mappings:", "    if mapping not in available_mappings:")], "K3"),
     ("odd-order-three-accepted", "C06", [(AU, "    if trotter_order > 1 and trotter_order % 2 != 0:", "    if trotter_order > 3 and trotter_order % 2 != 0:")], "K9.suzuki"),
@@ -314,6 +318,7 @@ SILENT = [
     ("multiform-compress-update-in-both-branches", "C16", [(MULTI, "        if abs_tol is None:\n            super(QubitOperator, self).compress()\n        else:\n            super(QubitOperator, self).compress(abs_tol)\n\n        self._update(n_qubits)", "        if abs_tol is None:\n            super(QubitOperator, self).compress()\n            self._update(n_qubits)\n        else:\n            super(QubitOperator, self).compress(abs_tol)\n            self._update(n_qubits)")]),
     ("ionq-import-folds-angles-to-4pi", "C17", [(TION, "        parameter = gate.get(\"rotation\")\n", "        parameter = gate.get(\"rotation\")\n        if parameter is not None:\n            parameter %= 4 * 3.141592653589793\n")]),
     ("sympy-backend-forwards-by-keyword", "C19", [(TGSYMPYB, "        super().__init__(n_shots, noise_model)", "        super().__init__(noise_model=noise_model, n_shots=n_shots)")]),
+    ("bk-wrapper-positional-register-size", "C03", [(BKF, "    qubit_operator = openfermion_bravyi_kitaev(fermion_operator, n_qubits=n_qubits)", "    qubit_operator = openfermion_bravyi_kitaev(fermion_operator, n_qubits)")]),
     ("angle-law-spelling", "C06", [(AU, "    angle = 2.*coef if coef >= 0. else 4*np.pi+2*coef", "    angle = 2.*coef + (0. if coef >= 0. else 4*np.pi)")]),
     ("cirq-branches-reordered", "C01", [(TCIRQ, '        elif gate_name in {"SWAP"}:\n            target_circuit.append(GATE_CIRQ[gate_name](qubit_list[gate.target[0]], qubit_list[gate.target[1]]))\n        elif gate_name in {"CSWAP"}:\n            next_gate = GATE_CIRQ[gate_name].controlled(num_controls)\n            target_circuit.append(next_gate(*control_list, qubit_list[gate.target[0]], qubit_list[gate.target[1]]))\n',
                                          '        elif gate_name in {"CSWAP"}:\n            next_gate = GATE_CIRQ[gate_name].controlled(num_controls)\n            target_circuit.append(next_gate(*control_list, qubit_list[gate.target[0]], qubit_list[gate.target[1]]))\n        elif gate_name in {"SWAP"}:\n            target_circuit.append(GATE_CIRQ[gate_name](qubit_list[gate.target[0]], qubit_list[gate.target[1]]))\n')]),
